@@ -34,8 +34,9 @@ def rule_a(ctx):
         p = f.params[-1] if qn == "Resize.__call__" else f.params[0]
         ctx.instance(R)
         am = AM(f)
-        got = am.has(f.node, f"meta = {p}.metadata()") is not None and am.has(f.node, f"return type({p})(arr, **meta)") is not None
-        mname = am.actual("meta") or "meta"
+        am.let("meta", f"{p}.metadata()")
+        got = am.has(f.node, f"return type({p})(arr, **meta)") is not None
+        mname = am.actual("meta") or "<unnamed>"
         meta_writes = [norm(s) for s in ast.walk(f.node) if isinstance(s, (ast.Assign, ast.AugAssign, ast.Delete)) for t in (s.targets if not isinstance(s, ast.AugAssign) else [s.target])
                        if isinstance(t, ast.Subscript) and norm(t.value) == mname] + \
                       [norm(c) for c in ast.walk(f.node) if isinstance(c, ast.Call) and isinstance(c.func, ast.Attribute) and norm(c.func.value) == mname and c.func.attr in ("pop", "update", "clear", "setdefault", "popitem")]
@@ -46,11 +47,11 @@ def rule_a(ctx):
     ctx.instance(R)
     am = AM(f)
     im, vs = f.params[0], f.params[1]
-    ok = all(am.has(f.node, t) is not None for t in (
-        f"dimensions = {im}.dimensions",
-        f"shape = tuple((int(d / {vs}) for d in dimensions))",
-        "rsz = Resize(shape=shape, interpolation=interpolation)",
-        f"return rsz({im})"))
+    am.let("dims", f"{im}.dimensions")
+    am.let("shp", f"tuple((int(d / {vs}) for d in dims))")
+    am.let("interp", "kwargs.get('interpolation')")
+    am.let("rsz", "Resize(shape=shp, interpolation=interp)")
+    ok = am.has(f.node, f"return rsz({im})") is not None and sum(1 for r in ast.walk(f.node) if isinstance(r, ast.Return)) == 1
     ctx.ob(R, f.qname, "equalize_voxel_size resizes to dimensions / voxel_size voxels and keeps the dimensions", ok, str(am.show()), f.node)
     # AxisReduction metadata
     f = m.func(DIM, "AxisReduction.__call__")
@@ -97,7 +98,9 @@ def rule_a(ctx):
     meta = {s.targets[0].slice.value: norm(s.value) for s in ast.walk(f.node) if isinstance(s, ast.Assign) and isinstance(s.targets[0], ast.Subscript) and norm(s.targets[0].value) == mn and isinstance(s.targets[0].slice, ast.Constant)}
     ctx.ob(R, f.qname, "extrusion prepends the height to dimensions and origin and sets 3d matrix indexing",
            meta == {"space_dim": "3", "dimensions": f"[{h}, *{mn}['dimensions']]", "indexing": "'ijk'", "origin": f"[{h}, *{mn}['origin']]"}, str(meta), f.node)
-    ok = all(am.has(f.node, t) is not None for t in (f"arr = {f.params[0]}.img", "shape = arr.shape", f"arr_3d = np.zeros(({f.params[2]}, *shape), dtype=arr.dtype)",
+    am.let("arr", f"{f.params[0]}.img")
+    am.let("shape", "arr.shape")
+    ok = all(am.has(f.node, t) is not None for t in (f"arr_3d = np.zeros(({f.params[2]}, *shape), dtype=arr.dtype)",
                                                      f"for i in range({f.params[2]}):\n    arr_3d[i, ...] = arr", f"return type({f.params[0]})(img=arr_3d, **meta)"))
     ctx.ob(R, f.qname, "the new axis is matrix axis 0 of the array", ok, str(am.show()), f.node)
     ctx.floor(R, 8)
@@ -326,7 +329,8 @@ def rule_f(ctx):
     ctx.ob(R, f.qname, "the canvas metadata carries those dimensions and that origin", dims_ok and len(meta) == 1 and mk.get("dimensions") == am.actual("dims") and mk.get("origin") == am.actual("origin"), str(mk), f.node)
     adds = [s_ for s_ in ast.walk(f.node) if isinstance(s_, (ast.AugAssign, ast.Assign)) and ".img" in norm(s_.target if isinstance(s_, ast.AugAssign) else s_.targets[0])]
     ctx.ob(R, f.qname, "every warped input is added (+=) to the canvas array", len(adds) == 2 and all(isinstance(a, ast.AugAssign) and isinstance(a.op, ast.Add) for a in adds), str([norm(a) for a in adds]), f.node)
-    zero = am.has(f.node, "canvas = np.zeros(shape, dtype=dtype)")
+    am.let("canvas", "np.zeros(shape, dtype=dtype)")
+    zero = am.has(f.node, "image = ImageType(img=canvas, **meta)")
     ctx.ob(R, f.qname, "the canvas array starts from zeros", zero is not None, "", f.node)
     ctx.floor(R, 1)
 
